@@ -29,7 +29,8 @@ if git diff --name-only | grep -q '_test.go$'; then say "NOTE patch touches test
 if ! (GOFLAGS= go build ./... && GOFLAGS= go build -tags verif ./...) >>$res 2>&1; then say "RESULT does not build"; cleanup; exit 1; fi
 say "builds: yes"
 # 2. suite
-GOFLAGS= go test -json -vet=off -count=1 -timeout 25m ./... > /tmp/sv-$low-$v.json 2>/dev/null
+# the suite uses the fixed port 4840 (tests/go, examples/browse): one suite run at a time
+flock /tmp/sv-suite.lock env GOFLAGS= go test -json -vet=off -count=1 -timeout 25m ./... > /tmp/sv-$low-$v.json 2>/dev/null
 missing=$(python3 - /tmp/sv-$low-$v.json <<'PY'
 import json,sys
 base=json.load(open('/root/.vp/BASELINE.json')); want=set(base['stable_pass']); passed=set()
